@@ -659,6 +659,14 @@ DUMP_ONLY_MODELS = [
         ('special', [lambda x=x: Special(x) for x in range(7)]),
         ('nulled', [lambda x=x: [Nulled(x)] for x in range(6)]),
         ('top', [lambda x=x: Nulled(x) for x in range(6)])]),
+    # values no representer is registered for: both flavours of a dump
+    # function must refuse them alike (C12)
+    ('pure', Any, [When], [
+        ('v', [lambda: When(DATES[0], pathlib.PurePosixPath('a/b')),
+               lambda: [pathlib.PurePosixPath('x')],
+               lambda: {'k': pathlib.PureWindowsPath('c:/x')},
+               lambda: [1, {'s': {1, 2}}], lambda: (1, 2),
+               lambda: When(DATES[0], PATHS[1])])]),
     ('collide', Collide, [Collide], [
         ('v', [lambda: Collide(10, 1, OrderedDict([('b', 5), ('c', 6)])),
                lambda: Collide(10, 1, OrderedDict([('z', 1), ('a', 5)])),
@@ -688,7 +696,7 @@ _FN = {}
 def functions(mi: int):
     """(load, dumps, dumps_json, dump, dump_json) for model mi."""
     if mi not in _FN:
-        name, dt, classes, _ = MODELS[mi]
+        name, dt, classes, _ = (MODELS + DUMP_ONLY_MODELS)[mi]
         others = [c for c in classes if c is not dt]
         _FN[mi] = (yatiml.load_function(dt, *others),
                    yatiml.dumps_function(*classes),
